@@ -97,6 +97,12 @@ impl Sub for RoundTrip {
          distinct = hash(image, operations)".into()
     }
     fn check(&self, case: &RtCase, ctx: &mut Ctx) -> Result<(), String> {
+        self.check_case(case, ctx)
+    }
+}
+
+impl RoundTrip {
+    pub fn check_case(&self, case: &RtCase, ctx: &mut Ctx) -> Result<(), String> {
         let b = &case.base;
         let files = b.spec.render();
         let sentences = sentences_with_user(case);
@@ -335,10 +341,13 @@ pub fn run(opts: &Opts) -> Report {
     let a = RoundTrip;
     crate::props::committed_replays(&a, opts, &mut rep);
     run_sub(&a, opts, opts.tier.pick(1500, 30_000), &mut rep);
+    let sc = crate::props::scale::RoundTripScale;
+    crate::props::committed_replays(&sc, opts, &mut rep);
+    run_sub(&sc, opts, opts.tier.pick(160, 3000), &mut rep);
     absorb_xresults(&mut rep, opts, "C05");
     rep
 }
 
 pub fn replay(path: &Path) -> Option<i32> {
-    crate::props::try_strict(&RoundTrip, "C05", path)
+    crate::props::try_strict(&RoundTrip, "C05", path).or_else(|| crate::props::try_strict(&crate::props::scale::RoundTripScale, "C05", path))
 }
